@@ -14,6 +14,21 @@ RULES = {
 }
 
 
+def check_own_line(rep, repo, rule, what):
+    """the preference text on an agent's line is computed for THAT agent: no field of a line reads a variable carried over
+    from the line of an earlier agent (an empty or skipped list must not inherit the previous one's text)"""
+    from ..writerfacts import writer_facts, stale_line_fields
+    from ..loader import AnalysisError
+    for cls in ('Generator_ha_sm_hr', 'Generator_spa'):
+        try:
+            wf_ = writer_facts(repo, cls, True)
+            stale = stale_line_fields(wf_)
+        except (AnalysisError, Unknown):
+            continue                     # the writer itself is judged by C08 / C09
+        rep.check(not stale, rule, wf_.ci.where, '%s: every field of an agent\'s line is computed in that agent\'s own iteration (%s)' % (what, cls),
+                  got=['line kind %d field %d reads %s as the previous line left it' % s_ for s_ in stale[:3]] or 'no carried value', want='set for every agent', construct='%s line text carried over from the previous agent' % cls)
+
+
 def run(rep, repo, tier):
     for k, v in RULES.items():
         rep.rule(k, v)
@@ -30,6 +45,7 @@ def run(rep, repo, tier):
         rep.inconclusive('C12.R1', f.where, 'the inversion returns (lists, tie indicators)', got=show(rv)[:160])
         return
     lists = rv[1][0]
+    check_own_line(rep, repo, 'C12.R3', 'the list written for an agent is that agent\'s list')
     check_inversion(rep, f, lists, lists_p, n_p)
     # R3: operations applied to the lists
     bad = []
@@ -255,6 +271,23 @@ def check_spa_lists(rep, repo):
             rep.fail('C12.R2', w, "a student's lecturers are de-duplicated over the whole list (a lecturer whose projects are ranked non-adjacently must still appear once)",
                      got='entries are skipped only when equal to the previous one: ' + show(g)[:120], want='mask / set / membership test', construct='adjacent-only de-duplication')
             return
+    # (e) itertools.groupby: merges EQUAL NEIGHBOURS only - a de-duplication when its argument is sorted, adjacent-only otherwise
+    if kind is None and c[0] == 'comp' and len(c[1]) == 1:
+        gb = c[1][0][0][3]
+        if gb[0] == 'call' and show(gb[1]).split('.')[-1] == 'groupby' and len(gb[2]) == 1 and not (len(gb) > 3 and gb[3]):
+            arg = gb[2][0]
+            if arg[0] == 'call' and arg[1] == S('sorted') and len(arg[2]) == 1 and c[2] == I(c[1][0][0], C(0)):
+                co = arg[2][0]
+                if co[0] == 'comp' and len(co[1]) == 1 and co[1][0][0][3] == own:
+                    kind = 'sorted groups'
+                    proj = co[1][0][0]
+                    if co[2] != lec_id(proj):
+                        problem = ('the groups hold %s, not the lecturer of the project looked up in the project->lecturer table' % show(co[2]).replace(show(proj), 'proj'), co[2])
+            else:
+                rep.fail('C12.R2', w, "a student's lecturers are de-duplicated over the whole list (a lecturer whose projects are ranked non-adjacently must still appear once)",
+                         got='groupby() over the lecturers in preference order merges equal neighbours only: ' + show(arg)[:100], want='mask / set / membership test (or groupby over the sorted lecturers)',
+                         construct='adjacent-only de-duplication')
+                return
     if kind is None and inner[0] == 'accum':
         # loop form of (c) or of an adjacent-only variant
         for op, idx, val, ch in inner[2]:
